@@ -15,6 +15,8 @@ import SodiumModel.Model.Ge25519Ref10
 import SodiumModel.Model.Fe25
 import SodiumModel.Driver.C06
 import SodiumModel.Driver.C07Ref
+import SodiumModel.Model.X86Scalar
+import Generated.Sandy2xAsm
 namespace Sodium.Driver.C05
 open Sodium Sodium.Model Sodium.Driver Sodium.Spec
 
@@ -45,8 +47,34 @@ def rcHex : Option Bytes → String
 open Sodium.Model.Scalarmult in
 def multSpec : Bytes → Bytes → Option Bytes := mult_ref10 Sodium.Model.LadderRef10.x25519_ref10
 
+
+/-! Tie A for the hand-written assembly of the sandy2x backend (`fe51_pack.S`, `fe51_mul.S`, `fe51_nsquare.S`): the
+    instruction lists that `tools_new/asm2lean.py` regenerates from the `.S` text (`Generated/Sandy2xAsm.lean`) are RUN by
+    the interpreter of `Model/X86Scalar.lean` on the final limb vector `h` of every X25519 operation and compared with
+    the limb model: `fe51_pack(h)` = `fe25519_tobytes h` byte for byte, `fe51_mul(h, h)` and `fe51_nsquare(h, 2)` =
+    `fe25519_mul h h` / two `fe25519_sq` as field elements (their limbs may legitimately differ: the assembly's carry chain
+    is 0→1→2→3→4→0, the C one 0→…→4→0→1→2).  A difference poisons the result (32 bytes 0xEF), which makes the `x25519`
+    operation print `MODEL-DISAGREE` and every derived operation differ from the library. -/
+open Sodium.Model.Fe51 Sodium.Model.X86Scalar in
+def asmAgrees (h : Fe) : Bool :=
+  let packOk := callPack Generated.Sandy2xAsm.fe51_pack h == some (fe25519_tobytes h)
+  let mulOk := match callMul Generated.Sandy2xAsm.fe51_mul h h with
+    | some r => fe25519_tobytes r == fe25519_tobytes (fe25519_mul h h)
+    | none => false
+  let sqOk := match callNsquare Generated.Sandy2xAsm.fe51_nsquare h 2 with
+    | some r => fe25519_tobytes r == fe25519_tobytes (fe25519_sq (fe25519_sq h))
+    | none => false
+  packOk && mulOk && sqOk
+
+open Sodium.Model.Fe51 in
+def fe51FieldAsm : Sodium.Model.LadderRef10.FieldOps Fe :=
+  { fe51Field with tobytes := fun h => if asmAgrees h then fe25519_tobytes h else List.replicate 32 0xEF }
+
+/-- `x25519_fe51` with the assembly cross-run on the final limb vector -/
+def x25519_fe51_asm (t p : Bytes) : Bytes := Sodium.Model.LadderRef10.ladder fe51FieldAsm t p
+
 open Sodium.Model.Scalarmult in
-def multFe51 : Bytes → Bytes → Option Bytes := mult_ref10 Sodium.Model.Fe51.x25519_fe51
+def multFe51 : Bytes → Bytes → Option Bytes := mult_ref10 x25519_fe51_asm
 
 /-- the calls that go through the limb-level model: byte sum of scalar and point ≡ 0 mod 4 -/
 def viaLimbs (n p : Bytes) : Bool :=
@@ -58,7 +86,7 @@ def viaLimbs (n p : Bytes) : Bool :=
     agree; the driver nevertheless cross-checks them on every call.  A disagreement poisons the result (32 bytes
     0xEE, which the C library never returns for these inputs by accident) and the `x25519` operation prints `MODEL-DISAGREE`. -/
 def x25519_both (t p : Bytes) : Bytes :=
-  let a := Sodium.Model.Fe51.x25519_fe51 t p
+  let a := x25519_fe51_asm t p
   let b := Sodium.Model.Fe25.x25519_fe25 t p
   if a == b then a else List.replicate 32 0xEE
 
